@@ -267,7 +267,7 @@ class Unit:
         self.props = props          # property ids this unit serves
         self.chunks = []
         self.fns = []
-        self.cfgs = {'debug_assertions': True, 'test': False}
+        self.cfgs = {'debug_assertions': True, 'test': False, 'feature="debugging"': False, 'feature="profiling"': False}
         self.assumptions = []       # free-text standing assumptions of this unit
         self.tag_props = {}         # obligation-id regex -> [props]  (default: all unit props)
         self.rlimit = 30
